@@ -219,6 +219,7 @@ func Execute(t *testing.T, p *PropertyDef, seed uint64, stratum string, gen, sch
 		synctest.Test(t, func(t *testing.T) {
 			simrt.ResetRand()
 			simrt.SetWorld(w)
+			w.MarkRoot()
 			nw := simnet.New()
 			simnet.SetNet(nw)
 			run.Net = nw
